@@ -55,9 +55,9 @@ def import_pairs():
     out.append(('RFC-1215', 'TRAP-TYPE'))
     for v1 in ('RFC1213-MIB', 'RFC1158-MIB'):
         for s in MIB_SYMBOLS:
-            if v1 == 'RFC1213-MIB' and s in v1stubs.MIB1158_SPECIAL:
+            if v1 == 'RFC1213-MIB' and s in v1stubs.ONLY_1158:
                 continue  # names that only RFC1158-MIB has
-            if v1 == 'RFC1158-MIB' and s == 'PhysAddress':
+            if v1 == 'RFC1158-MIB' and s in v1stubs.ONLY_1213:
                 continue  # introduced by RFC1213-MIB
             if v1stubs.expected_home(v1, s):
                 out.append((v1, s))
@@ -376,14 +376,13 @@ class TypeIndex(object):
         return 'x', vs, 2
 
 
-RENAMED = {'nullSpecific': ('SNMPv2-SMI', 'zeroDotZero'), 'ipRoutingTable': ('RFC1213-MIB', 'ipRouteTable'),
-           'snmpEnableAuthTraps': ('SNMPv2-MIB', 'snmpEnableAuthenTraps')}
+RENAMED = dict(v1stubs.MIB1158_SPECIAL)
 
 
 class RenamedUses(object):
     name = 'uses-of-renamed-symbols'
-    describe = ('the three RFC1158-MIB symbols whose SMIv2 successor has another NAME (nullSpecific, ipRoutingTable, '
-                'snmpEnableAuthTraps), imported by an SMIv1 module and USED in its body - as OID parent, TRAP-TYPE VARIABLES member, '
+    describe = ('the four RFC1158-MIB symbols whose SMIv2 successor has another NAME (nullSpecific, ipRoutingTable, '
+                'snmpEnableAuthTraps, ipAdEntReasmMaxSiz), imported by an SMIv1 module and USED in its body - as OID parent, TRAP-TYPE VARIABLES member, '
                 'OBJECT IDENTIFIER DEFVAL: the references must come out as in the transliteration (new name, new module)')
 
     def blocks(self, tier):
